@@ -6,8 +6,14 @@ WF(values, rowptr, colidx, ncols) :=
     forall r, k: rowptr[r] <= k and k+1 < rowptr[r+1]  =>  colidx[k] < colidx[k+1]      (strictly increasing per row)
 
 assemble_csr:  normal return  =>  WF of exactly what is handed to the backend; only MatrixError may escape.
-assemble_coo / diag / eye / empty: what they pass to assemble_csr is WF (by the callee's contract).
+diag / empty: what they pass to assemble_csr is WF (by the callee's contract) and denotes the intended matrix.
+assemble_coo:  hands assemble_csr the ROW-POINTER FORM of the COO input (numeric.compress_indices by contract: len = nrows+1, c[0] = 0,
+               c[-1] = len(rowidx), monotone, c[i] <= k < c[i+1] <=> rowidx[k] == i), values/colidx/ncols unchanged; it returns normally
+               exactly for valid COO data (lengths agree, rowidx in range and sorted, colidx in range and strictly increasing within a row)
+               and otherwise raises ValueError/MatrixError.
 Matrix.diagonal (under WF of the exported CSR): diag[r] = the stored value at (r, r) or 0.
+Matrix.rowsupp:  supp[r] <=> some stored entry of row r has |value| > tol.
+Matrix.__reduce__: the reconstruction call is assemble_csr(data, indptr, indices, shape[1]) and is accepted.
 """
 import z3
 from pyvc.contract import Contract, State
@@ -17,6 +23,7 @@ from pyvc.fp import SFp
 from pyvc.values import FIN
 from pyvc.interp import Loop
 from pyvc import lemmas
+from contracts import compress as _compress
 
 PROP = 'C15'
 LEVEL = 'proof'
@@ -208,15 +215,232 @@ class Constructor(Contract):
         return out
 
 
+def valid_coo_clauses(nvals, rowidx, nrows, colidx, ncols):
+    """COO data that define a matrix unambiguously (the property statement): consistent lengths, row indices in range and
+    sorted, column indices in range, and strictly increasing columns within a run of equal row indices (no repeats)."""
+    n = rowidx.n
+    return [('lengths-agree', z3.And(nvals == n, colidx.n == n)),
+            ('rowidx-in-range-and-sorted', _compress.valid(rowidx, nrows)),
+            ('colidx-in-range', qforall(1, lambda k: z3.Implies(z3.And(0 <= k, k < n), z3.And(0 <= colidx.sel(k), colidx.sel(k) < ncols)))),
+            ('colidx-strictly-increasing-within-a-row', qforall(1, lambda k: z3.Implies(z3.And(0 <= k, k + 1 < n, rowidx.sel(k) == rowidx.sel(k + 1)), colidx.sel(k) < colidx.sel(k + 1))))]
+
+
+def csr_by_contract(S, on_accept=None):
+    """assemble_csr replaced by its contract (AssembleCSR above): MatrixError iff the data are not well-formed, else they
+    are handed to the backend unchanged.  What it received is recorded in S.received; `on_accept(ctx, wf)` may state
+    lemmas at that point (wf: clause name -> the formula object that is now a hypothesis)."""
+    def assemble_csr(ctx, values, rowptr, colidx, ncols):
+        if not (isinstance(values, Vec) and isinstance(rowptr, Vec) and isinstance(colidx, Vec)):
+            raise Unsupported('assemble_csr received non-array data: %r' % ((values, rowptr, colidx),))
+        ctx.used_axioms.add('matrix.assemble_csr by its contract (this file): MatrixError iff not WF, else the backend receives the data unchanged')
+        S.offered = (values, rowptr, colidx, ncols)
+        clauses = WF_clauses(values.n, rowptr, colidx, zint(ncols))
+        if not ctx.branch(z3.And(*[f for _, f in clauses])):
+            raise PyRaise('MatrixError', note='assemble_csr: data are not well-formed CSR')
+        for _, f in clauses:
+            ctx.assume(f)  # the conjuncts of the branch condition, as these formula objects
+        S.received = (values, rowptr, colidx, ncols)
+        S.received_wf = clauses
+        if on_accept is not None:
+            on_accept(ctx, dict(clauses))
+        return SOpaque('Matrix')
+    return assemble_csr
+
+
+def same_vec(a, b):
+    if a is b:
+        return z3.BoolVal(True)
+    from pyvc.nparr import eq_elem
+    return z3.And(a.n == b.n, qforall(1, lambda i: z3.Implies(z3.And(0 <= i, i < a.n), eq_elem(a.kind, a.sel(i), b.sel(i)))))
+
+
+class AssembleCOO(Contract):
+    """matrix.assemble_coo (composition): what it hands to assemble_csr is the row-pointer form of the COO input
+    (compress_indices by contract), everything else unchanged; hence accepted iff the COO data define a matrix unambiguously."""
+    prop = PROP
+    fn = 'matrix/__init__:assemble_coo'
+
+    def setup(self, cx):
+        values = Vec.fresh(cx, 'values', 'fp', probes=0)
+        rowidx = Vec.fresh(cx, 'rowidx', 'int', probes=4)
+        colidx = Vec.fresh(cx, 'colidx', 'int', probes=4)
+        nrows, ncols = cx.int('nrows'), cx.int('ncols')
+        cx.assume(z3.And(nrows >= 0, ncols >= 0))
+        S = State(args=(values, rowidx, SInt(nrows), colidx, SInt(ncols)), inputs=(values, rowidx, nrows, colidx, ncols), received=None, offered=None, entry_in_row=None)
+        S.valid_clauses = valid_coo_clauses(values.n, rowidx, nrows, colidx, ncols)
+        S.valid = z3.And(*[f for _, f in S.valid_clauses])
+        S.globals = {'numeric': _compress.NumericByContract(), 'assemble_csr': csr_by_contract(S, lambda ctx, wf: self.hints(ctx, S, wf)), 'numpy': Numpy()}
+        return S
+
+    def hints(self, cx, S, wf):
+        """At the point where assemble_csr accepts: WF of the row-pointer form => the COO input is valid (each clause a lemma
+        proved from the few facts it needs)."""
+        values, rowptr, colidx, ncols = S.received
+        v0, r0, nrows, c0, nc0 = S.inputs
+        g = [g for g in cx.ghost.get('compress_indices', []) if g['result'] is rowptr and g['indices'] is r0]
+        if not g or colidx is not c0:
+            return
+        post = dict(g[0]['post'])
+        V = dict(S.valid_clauses)
+        from pyvc import npext
+        npext.lemma(cx, 'coo-valid:lengths-agree', V['lengths-agree'], using=[wf['rowptr-ends-at-nnz'], post['ends-at-len'], post['length']])
+        npext.lemma(cx, 'coo-valid:rowidx-in-range-and-sorted', V['rowidx-in-range-and-sorted'], using=[g[0]['valid']])
+        npext.lemma(cx, 'coo-valid:colidx-in-range', V['colidx-in-range'], using=[wf['colidx-below-ncols'], wf['colidx-nonnegative'], wf['rowptr-ends-at-nnz'], post['ends-at-len'], post['length']])
+        S.entry_in_row = npext.lemma(cx, 'entry-k-lies-in-row-rowidx[k]', qforall(1, lambda k: z3.Implies(z3.And(0 <= k, k < r0.n), z3.And(
+            0 <= r0.sel(k), r0.sel(k) < nrows, rowptr.sel(r0.sel(k)) <= k, k < rowptr.sel(r0.sel(k) + 1)))), using=[post['rows-partition-positions'], g[0]['valid']])
+        npext.lemma(cx, 'coo-valid:colidx-strictly-increasing-within-a-row', V['colidx-strictly-increasing-within-a-row'],
+                    using=[wf['colidx-strictly-increasing-per-row'], S.entry_in_row, post['length']])
+
+    def ensures(self, cx, S, result):
+        if S.received is None:
+            raise Unsupported('assemble_coo returned without assemble_csr accepting anything')
+        values, rowptr, colidx, ncols = S.received
+        v0, r0, nrows, c0, nc0 = S.inputs
+        out = [('accepted-input-is-valid-coo:' + nm, f) for nm, f in S.valid_clauses]
+        out += [('csr:' + nm, f) for nm, f in S.received_wf]
+        # the callee contract of compress_indices gives exactly these clauses when it was called on (rowidx, nrows) and its
+        # result was passed on (then they are literally among the hypotheses); otherwise they are stated afresh
+        post = None
+        for g in cx.ghost.get('compress_indices', []):
+            if g['result'] is rowptr and g['indices'] is r0 and z3.eq(z3.simplify(g['L'] - nrows), z3.IntVal(0)):
+                post = g['post']
+        out += [('rowptr-is-row-pointer-form:' + nm, f) for nm, f in (post or _compress.post_clauses(r0, nrows, rowptr))]
+        out.append(('entry-k-lies-in-row-rowidx[k]', getattr(S, 'entry_in_row', None) if getattr(S, 'entry_in_row', None) is not None else qforall(1, lambda k: z3.Implies(z3.And(0 <= k, k < r0.n), z3.And(
+            0 <= r0.sel(k), r0.sel(k) < nrows, rowptr.sel(r0.sel(k)) <= k, k < rowptr.sel(r0.sel(k) + 1))))))
+        out.append(('values-colidx-ncols-unchanged', z3.And(same_vec(values, v0), same_vec(colidx, c0), zint(ncols) == nc0)))
+        return out
+
+    def raises(self, cx, S, e):
+        # rejection (ValueError from compress_indices, MatrixError from assemble_csr) is acceptable exactly for invalid COO data
+        if e.exc.split(':')[0] not in ('ValueError', 'MatrixError'):
+            return False
+        return z3.Not(S.valid)
+
+    def replay(self, ob):
+        import json, os
+        here = os.path.dirname(os.path.dirname(os.path.abspath(__file__)))
+        return ("import sys; sys.path.insert(0, %r)\nfrom native import c15\nc15.run_coo(%s, %r)\n"
+                % (here, json.dumps({k: v for k, v in (ob.model or {}).items() if not k.startswith('k!')}), ob.clause))
+
+
+class RowSupp(Contract):
+    """Matrix.rowsupp(tol): supp[r] <=> some stored entry of row r has |value| > tol (IEEE comparison: a NaN entry does not count),
+    for any number of rows and entries.  Class invariant of export('coo'): equally long data/row/col, row indices in range."""
+    prop = PROP
+    fn = 'matrix/_base:Matrix.rowsupp'
+
+    def __init__(self, tol):
+        self.tol = tol  # 'default' | 'given'
+        self.label = 'tol-' + tol
+
+    def setup(self, cx):
+        nr, nc = cx.int('nrows'), cx.int('ncols')
+        cx.assume(z3.And(nr >= 0, nc >= 0))
+        data = Vec.fresh(cx, 'data', 'fp')
+        row = Vec.fresh(cx, 'row', 'int', n=data.n, probes=3)
+        col = Vec.fresh(cx, 'col', 'int', n=data.n)
+        cx.assume(qforall(1, lambda k: z3.Implies(z3.And(0 <= k, k < data.n), z3.And(0 <= row.sel(k), row.sel(k) < nr))))
+        A = SObj('Matrix', attrs=dict(shape=(SInt(nr), SInt(nc)), dtype=DType('fp')), methods={'export': lambda ctx, s, form: self.export(ctx, form, data, row, col)})
+        S = State(nr=nr, data=data, row=row, args=(A,), globals={'numpy': Numpy()})
+        if self.tol == 'given':
+            S.tol = SFp.fresh(cx, 'tol')
+            S.kwargs = {'tol': S.tol}
+        else:
+            S.tol = SFp.lift(0)
+        return S
+
+    def export(self, ctx, form, data, row, col):
+        if form != 'coo':
+            raise Unsupported('rowsupp exported %r' % (form,))
+        return (data, (row, col))
+
+    def ensures(self, cx, S, result):
+        if not (isinstance(result, Vec) and result.kind == 'bool'):
+            raise Unsupported('rowsupp returned %r' % (result,))
+        data, row, nr = S.data, S.row, S.nr
+        big = lambda k: SFp.lt(S.tol, SFp(*data.sel(k)).unop(cx, 'abs'))
+        from pyvc.nparr import qexists
+        return [('length', result.n == nr),
+                ('row-with-a-large-entry-is-in-the-support', qforall(2, lambda r, k: z3.Implies(z3.And(0 <= k, k < data.n, row.sel(k) == r, big(k)), result.sel(r)))),
+                ('row-in-the-support-has-a-large-entry', qforall(1, lambda r: z3.Implies(z3.And(0 <= r, r < nr, result.sel(r)), qexists(1, lambda k: z3.And(0 <= k, k < data.n, row.sel(k) == r, big(k))))))]
+
+    def replay(self, ob):
+        import os
+        here = os.path.dirname(os.path.dirname(os.path.abspath(__file__)))
+        return "import sys; sys.path.insert(0, %r)\nfrom native import c15b\nc15b.run_rowsupp()\n" % here
+
+
+class Reduce(Contract):
+    """Matrix.__reduce__ followed by the call pickle makes: the reconstruction call is assemble_csr(data, indptr, indices, shape[1])
+    with the exported CSR triple in the right argument order, and (class invariant: the export is well-formed) it is accepted."""
+    prop = PROP
+    fn = 'matrix/_base:Matrix.__reduce__'
+
+    def setup(self, cx):
+        nr, nc = cx.int('nrows'), cx.int('ncols')
+        cx.assume(z3.And(nr >= 0, nc >= 0))
+        data = Vec.fresh(cx, 'data', 'fp')
+        ind = Vec.fresh(cx, 'indices', 'int', n=data.n, probes=3)
+        ptr = Vec.fresh(cx, 'indptr', 'int', n=nr + 1, probes=3)
+        for nm, c in WF_clauses(data.n, ptr, ind, nc):
+            cx.assume(c)
+
+        def export(ctx, s, form):
+            if form != 'csr':
+                raise Unsupported('__reduce__ exported %r' % (form,))
+            return (data, ind, ptr)
+        A = SObj('Matrix', attrs=dict(shape=(SInt(nr), SInt(nc)), dtype=DType('fp')), methods={'export': export})
+        S = State(nr=nr, nc=nc, data=data, ind=ind, ptr=ptr, A=A, received=None, offered=None)
+        S.token = SOpaque('function assemble_csr')
+        S.globals = {'numpy': Numpy(), 'assemble_csr': S.token}
+        return S
+
+    def body(self, cx, S, call):
+        r = call(self.fn, S.A)
+        S.reduced = r
+        if not (isinstance(r, tuple) and len(r) == 2 and isinstance(r[1], tuple) and len(r[1]) == 4):
+            raise Unsupported('__reduce__ returned %r' % (r,))
+        if r[0] is S.token:
+            csr_by_contract(S)(cx, *r[1])  # what pickle.loads does with the reduced value
+        return r
+
+    def ensures(self, cx, S, result):
+        f, args = result
+        out = [('reconstructs-with-assemble_csr', z3.BoolVal(f is S.token))]
+        if S.received is not None:
+            values, rowptr, colidx, ncols = S.received
+            out += [('values-are-the-exported-data', z3.BoolVal(values is S.data)),
+                    ('rowptr-is-the-exported-indptr', same_vec(rowptr, S.ptr) if isinstance(rowptr, Vec) and rowptr.kind == 'int' else z3.BoolVal(False)),
+                    ('colidx-is-the-exported-indices', same_vec(colidx, S.ind) if isinstance(colidx, Vec) and colidx.kind == 'int' else z3.BoolVal(False)),
+                    ('ncols-is-shape[1]', zint(ncols) == S.nc), ('nrows-is-shape[0]', rowptr.n == S.nr + 1)]
+        return out
+
+    def replay(self, ob):
+        import os
+        here = os.path.dirname(os.path.dirname(os.path.abspath(__file__)))
+        return "import sys; sys.path.insert(0, %r)\nfrom native import c15b\nc15b.run_pickle()\n" % here
+
+
 def contracts():
-    return [AssembleCSR(), Diagonal(), Constructor('diag'), Constructor('empty')]
+    return [AssembleCSR(), AssembleCOO(), Diagonal(), Constructor('diag'), Constructor('empty'), RowSupp('default'), RowSupp('given'), Reduce()]
 
 
 TRUSTED = ['pyvc symbolic executor and its Python model (DESIGN 2.3)',
            'numpy externals as axioms: asarray (identity on arrays), elementwise comparisons, basic slices as views, greater_equal(out=) writes through, '
-           'x[idx]=v with integer-array idx (Skolem witness form), ndarray.all()',
+           'x[idx]=v with integer-array idx (Skolem witness form), ndarray.all(), numpy.zeros, abs() and > on float arrays (IEEE comparison), '
+           'arr[mask] as an order-preserving selection (rowsupp)',
            'lemma L-MONO (adjacent-monotone => monotone), lemmas/LMono.lean',
-           'numpy int64 treated as mathematical integers']
+           'numpy int64 treated as mathematical integers',
+           'assemble_coo: numeric.compress_indices is replaced by its contract (contracts/compress.py), which is PROVED for all lengths under property C05 '
+           '(./check C05); matrix.assemble_csr is replaced by its contract, proved above (AssembleCSR)',
+           'Matrix.__reduce__: pickle calls the returned callable with the returned argument tuple (the harness applies the assemble_csr contract to it)']
 ASSUMPTIONS = ['inputs are 1-D integer/float numpy arrays (ndim/dtype.kind rejections are concrete in the model)',
-               'Python asserts enabled']
-NOT_COVERED = ['scipy and MKL backends (native code)', 'matrix arithmetic, transpose, export, pickling round trips', 'values of the assembled matrix (only well-formedness of the validated triple)']
+               'Python asserts enabled',
+               'assemble_coo: nrows >= 0, ncols >= 0 (shape entries)',
+               "Matrix.rowsupp: class invariant of export('coo'): data/row/col equally long, 0 <= row[k] < shape[0]; float (not complex) data; tol a float (any IEEE value) or the default 0",
+               "Matrix.__reduce__: class invariant of export('csr'): the exported (data, indices, indptr) is well-formed CSR for shape (this is what assemble_csr established when the matrix was built; "
+               'backend arithmetic preserving it is not covered)']
+NOT_COVERED = ['scipy and MKL backends (native code)', 'matrix arithmetic, transpose, export, submatrix; values after a pickle ROUND TRIP through a backend (only the reconstruction call is covered)',
+               'values of the assembled matrix inside the backend (matrix/_numpy:assemble and NumpyMatrix.export/_submatrix/T need a 2-D array model; not attempted)',
+               'assemble_block_csr (list-of-chunks concatenation of symbolic length; design sketched in notes/C15-ext.md, not built)',
+               'complex data in rowsupp']
